@@ -51,6 +51,8 @@ def make_factory(style, made):
 
 TIMEOUT = {"weeks": 0, "days": 0, "hours": 1000, "minutes": 0, "seconds": 0, "milliseconds": 0, "microseconds": 0}
 OWN = -1                      # owner index of the server-level requests (/run, /equations, /agents)
+GHOST = -2                    # owner index of requests to an id that never existed (wave 3); id 99 in the model
+GHOST_UUID = "0" * 32
 
 
 class Srv:
@@ -104,7 +106,7 @@ def do(srv, label, op, client=None):
     """perform one request; returns (class token as Drive/C16 prints it, canonical body)"""
     c = client or srv.c
     k = op[0]
-    uid = srv.uids.get(label)
+    uid = srv.uids.get(label) if label != GHOST else GHOST_UUID
     if k == "c":
         r = c.post("/start-instance", json={"timeout": TIMEOUT})
         if r.status_code == 200:
@@ -188,14 +190,14 @@ def sval(x):
 
 
 def op_code(i, op):
-    i = max(i, 0)
+    i = 99 if i == GHOST else max(i, 0)
     if op[0] in ("s", "b", "R") and len(op) > 1 and op[1] is not None:
         return f"{i}{op[0]}{sval(op[1])}"
     return f"{i}{op[0]}"
 
 
 def op_str(i, op):
-    who = "srv" if i == OWN else str(i)
+    who = "srv" if i == OWN else "ghost" if i == GHOST else str(i)
     if op[0] in ("s", "b", "R") and len(op) > 1 and op[1] is not None:
         return f"{who}:{op[0]}({op[1][0]}={op[1][1]})"
     return f"{who}:{op[0]}"
@@ -364,8 +366,11 @@ def rand_setting(rng, none_weight=1):
     return ("c", rng.range(2, 9)) if r < none_weight + 2 else ("p", rng.range(2, 9))
 
 
-def gen_list(rng, long, created=False, points_heavy=False):
-    """request list of one instance (mostly valid).  `created`: the instance is created during the history."""
+def gen_list(rng, long, created=False, points_heavy=False, unpersisted=False, absent=False):
+    """request list of one instance (mostly valid).  `created`: the instance is created during the history.
+    `unpersisted` (adapter servers): contains a block step; [end-session]; [begin-session with other settings]; …; step — between
+    the block's steps the instance has in-memory state that the external store does not have.
+    `absent`: the instance leaves memory (stop / timeout) and is addressed again afterwards, several times."""
     def sett(w=1):
         s = rand_setting(rng, w)
         if points_heavy and s is not None and rng.chance(1, 2):
@@ -388,15 +393,30 @@ def gen_list(rng, long, created=False, points_heavy=False):
             ops += [("e",), ("b", sett(2))] if rng.chance(1, 2) else [("e",), ("s", None)]
         else:
             ops.append(("x",) if rng.chance(1, 2) else ("t",))
-    if rng.chance(1, 3):
+    if unpersisted:
+        blk = [("s", sett(1))]
+        v = rng.below(3)
+        if v != 1: blk.append(("e",))
+        if v != 0: blk.append(("b", sett(0)))
+        if rng.chance(1, 3): blk.append(("r",))
+        blk += [("s", None), ("r",)]
+        at = rng.range(1, len(ops))
+        ops[at:at] = blk
+    if absent or rng.chance(1, 3):
         ops.append(rng.choice([("x",), ("t",), ("t",)]))
-        ops.append(rng.choice([("s", None), ("k",), ("r",), ("b", sett(2)), ("s", sett(0))]))
+        for _ in range(rng.range(1, 3) if absent else 1):
+            ops.append(rng.choice([("s", None), ("k",), ("r",), ("b", sett(2)), ("s", sett(0)), ("e",)]))
         if rng.chance(1, 2):
             ops.append(("s", None))
     ops.append(("r",))
     if rng.chance(1, 8) and not created:
         ops = ops[1:]                    # no begin-session at all
     return ops
+
+
+def gen_ghost(rng):
+    """requests to an id that never existed"""
+    return [rng.choice([("k",), ("r",), ("s", None), ("b", None), ("e",), ("x",)]) for _ in range(rng.range(1, 3))]
 
 
 def gen_own(rng):
@@ -422,17 +442,17 @@ def merges(lists):
     return rec([0] * len(lists))
 
 
-def random_merge(rng, lists, own=()):
-    """random interleaving; `own` (server-level requests) gets owner index OWN"""
-    ls = list(lists) + ([list(own)] if own else [])
+def random_merge(rng, lists, own=(), ghost=()):
+    """random interleaving; `own` (server-level requests) gets owner index OWN, `ghost` (unknown id) GHOST"""
+    ls = [(i, list(l)) for i, l in enumerate(lists)] + ([(OWN, list(own))] if own else []) + ([(GHOST, list(ghost))] if ghost else [])
     pos = [0] * len(ls)
     out = []
     while True:
-        live = [i for i, l in enumerate(ls) if pos[i] < len(l)]
+        live = [j for j, (_, l) in enumerate(ls) if pos[j] < len(l)]
         if not live:
             return out
-        i = rng.choice(live)
-        out.append((OWN if (own and i == len(lists)) else i, ls[i][pos[i]])); pos[i] += 1
+        j = rng.choice(live)
+        out.append((ls[j][0], ls[j][1][pos[j]])); pos[j] += 1
 
 
 class Solo:
@@ -441,11 +461,12 @@ class Solo:
         self.cache = {}
 
     def get(self, srvs, style, ad, ops, own=False):
+        """own: False (an instance) | OWN | GHOST"""
         key = (style, ad, own, repr(ops))
         if key not in self.cache:
             srv = srvs.new(style, ad)
             if own:
-                self.cache[key] = run_interleaving(srv, 0, [(OWN, o) for o in ops])
+                self.cache[key] = run_interleaving(srv, 0, [(own, o) for o in ops])
             else:
                 k0 = 0 if (ops and ops[0][0] == "c") else 1
                 self.cache[key] = run_interleaving(srv, k0, [(0, o) for o in ops])
@@ -478,6 +499,7 @@ class Servers:
 
 
 def check_case(srvs, solo, style, ad, lists, own, seq):
+    # (`own` is kept for the callers' convenience: the server-level / ghost lists are read off `seq`)
     """returns (tokens, diffs) — diffs: list of (position in seq, owner, got, expected)"""
     srv = srvs.new(style, ad)
     got = run_interleaving(srv, n_initial(lists), seq)
@@ -485,7 +507,7 @@ def check_case(srvs, solo, style, ad, lists, own, seq):
     diffs = []
     cnt = {}
     for pos, (i, op) in enumerate(seq):
-        exp = solo.get(srvs, style, ad, list(own) if i == OWN else lists[i], own=(i == OWN))[cnt.get(i, 0)]
+        exp = solo.get(srvs, style, ad, [o for a, o in seq if a == i] if i < 0 else lists[i], own=(i if i < 0 else False))[cnt.get(i, 0)]
         cnt[i] = cnt.get(i, 0) + 1
         if got[pos] != exp:
             diffs.append((pos, i, got[pos], exp))
@@ -525,19 +547,53 @@ def probe_style(srvs, solo, style):
     return not diffs, (lists, own, seq, diffs)
 
 
+RESTORE_B = [("b", None), ("s", None), ("e",), ("b", ("c", 5)), ("s", None), ("r",)]
+
+
+def probe_restore(srvs, solo):
+    """restoreOnlyAddressed: on a server with adapter, instance 1 has an externalised session and then ends it and begins another
+    one with another setting (not externalised); a request to an id that is not in memory — a stopped instance, an id that never
+    existed, a timed-out instance — must not change what instance 1 answers next."""
+    B = RESTORE_B
+    variants = [
+        ([[("x",), ("k",)], B], [(1, o) for o in B[:4]] + [(0, ("x",)), (0, ("k",))] + [(1, o) for o in B[4:]]),
+        ([[("k",)], B], [(0, ("k",))] + [(1, o) for o in B[:4]] + [(GHOST, ("k",))] + [(1, o) for o in B[4:]]),
+        ([[("b", None), ("s", None), ("t",), ("r",)], B],
+         [(0, ("b", None)), (0, ("s", None))] + [(1, o) for o in B[:4]] + [(0, ("t",)), (0, ("r",))] + [(1, o) for o in B[4:]]),
+    ]
+    detail = None
+    for lists, seq in variants:
+        toks, diffs = check_case(srvs, solo, "fresh", True, lists, [], seq)
+        if diffs and detail is None:
+            detail = (lists, seq, diffs)
+    return detail is None, detail
+
+
 def gen_lean(facts):
     b = lambda x: "true" if x else "false"
     out = ["import Bptk.Props.C16", "/-! GENERATED by harness/props/c16.py from /repo on every run — do not edit. -/",
            "namespace Bptk.C16.Gen"]
     for st in STYLES:
-        out.append(f"def cfg_{st} : Cfg := {{ instancesShareNothing := {b(facts[st])} }}")
-        if facts[st]:
-            out.append(f"theorem holds_{st} : C16_full cfg_{st} := C16_full_of_good cfg_{st} (by decide)")
+        out.append(f"def cfg_{st} : Cfg := {{ instancesShareNothing := {b(facts[st])}, restoreOnlyAddressed := {b(facts['restore'])} }}")
+        if facts[st] and not facts["restore"]:
+            out.append(f"theorem violated_{st} : ¬ C16_full cfg_{st} := C16_witness_restore_all cfg_{st} (by decide)")
+            out.append(f"#print axioms violated_{st}")
+            out.append(f"theorem violated_ghost_{st} : ¬ C16_full cfg_{st} := C16_witness_restore_all_ghost cfg_{st} (by decide)")
+            out.append(f"#print axioms violated_ghost_{st}")
+            out.append(f"theorem touches_others_{st} : ∃ (s : Server) (op : Nat × Req) (t : Option Nat), absent s.insts op.1 = true ∧ "
+                       f"owner op ≠ t ∧ comp t (step cfg_{st} s op).1 ≠ comp t s :=\n  C16_absent_touches_others cfg_{st} (by decide)")
+            out.append(f"#print axioms touches_others_{st}")
+        elif facts[st]:
+            out.append(f"theorem holds_{st} : C16_full cfg_{st} := C16_full_of_good cfg_{st} (by decide) (by decide)")
             out.append(f"#print axioms holds_{st}")
+            out.append(f"theorem absent_local_{st} (s : Server) (op : Nat × Req) (t : Option Nat) (h : absent s.insts op.1 = true) "
+                       f"(ht : owner op ≠ t) :\n    comp t (step cfg_{st} s op).1 = comp t s :=\n"
+                       f"  C16_absent_touches_nobody cfg_{st} s op t (Or.inl (by decide)) h ht")
+            out.append(f"#print axioms absent_local_{st}")
             out.append(f"theorem commute_{st} (s : Server) (a b : Nat × Req) (h : owner a ≠ owner b) :\n"
                        f"    (step cfg_{st} (step cfg_{st} s b).1 a).2 = (step cfg_{st} s a).2 ∧\n"
                        f"    (step cfg_{st} (step cfg_{st} s a).1 b).2 = (step cfg_{st} s b).2 :=\n"
-                       f"  ⟨(C16_commute cfg_{st} (by decide) s a b h).1, (C16_commute cfg_{st} (by decide) s a b h).2.1⟩")
+                       f"  ⟨(C16_commute cfg_{st} (by decide) (by decide) s a b h).1, (C16_commute cfg_{st} (by decide) (by decide) s a b h).2.1⟩")
             out.append(f"#print axioms commute_{st}")
         else:
             out.append(f"theorem violated_{st} : ¬ C16_full cfg_{st} := C16_witness_shared cfg_{st} (by decide)")
@@ -549,6 +605,7 @@ def gen_lean(facts):
 
 
 FINDING_KEY = {"fresh": "cross-talk-fresh-model-factory", "sharedBase": "cross-talk-shared-base-model-factory"}
+RESTORE_KEY = "cross-talk-restore-rebuilds-other-instances"
 
 
 def run(chk):
@@ -567,7 +624,8 @@ def _run(chk, srvs):
     facts, pdetail = {}, {}
     for st in STYLES:
         facts[st], pdetail[st] = probe_style(srvs, solo, st)
-    chk.notes["cfg"] = {f"instancesShareNothing[{st}]": facts[st] for st in STYLES}
+    facts["restore"], rdetail = probe_restore(srvs, solo)
+    chk.notes["cfg"] = dict({f"instancesShareNothing[{st}]": facts[st] for st in STYLES}, restoreOnlyAddressed=facts["restore"])
     ok, why = chk.prove(gen_lean(facts))
     chk.cov["trusted_base"] = [
         "Lean 4.33 kernel; axioms propext, Classical.choice, Quot.sound (audited per run via #print axioms)",
@@ -584,7 +642,8 @@ def _run(chk, srvs):
     rng = chk.rng.fork("c16")
     cases = []              # dicts: style, ad, lists, own, seq
     dist = {"exhaustive_merges": 0, "sampled_merges": 0, "with_adapter": 0, "with_creation": 0, "with_server_level": 0,
-            "sharedBase": 0, "points_settings": 0, "begin_session_settings": 0, "restorations": 0}
+            "sharedBase": 0, "points_settings": 0, "begin_session_settings": 0, "restorations": 0,
+            "requests_to_absent_ids_on_adapter_servers": 0, "…_while_another_instance_holds_unpersisted_state": 0, "ghost_id_requests": 0}
     def add_case(st, ad, lists, own, seq, kind):
         cases.append({"style": st, "ad": ad, "lists": lists, "own": own, "seq": seq})
         dist[kind] += 1
@@ -594,9 +653,25 @@ def _run(chk, srvs):
         dist["sharedBase"] += st == "sharedBase"
         dist["points_settings"] += any(len(o) > 1 and o[1] is not None and o[1][0] == "p" for _, o in seq)
         dist["begin_session_settings"] += any(o[0] == "b" and len(o) > 1 and o[1] is not None for _, o in seq)
+        dist["ghost_id_requests"] += sum(1 for i, _ in seq if i == GHOST)
         if ad:
             for l in lists:
                 dist["restorations"] += any(l[j][0] == "t" and any(o[0] == "s" for o in l[:j]) and j + 1 < len(l) for j in range(len(l)))
+            # requests to ids that are not in memory, and whether some OTHER instance is then ahead of the external store
+            gone, dirty, hit, hit_dirty = set(), {}, 0, 0
+            for i, o in seq:
+                if i == OWN:
+                    continue
+                if o[0] in ("b", "s", "r", "e", "k") and (i == GHOST or i in gone):
+                    hit += 1
+                    hit_dirty += any(v for j, v in dirty.items() if j != i)
+                    gone.discard(i)
+                if i != GHOST:
+                    if o[0] in ("x", "t"): gone.add(i); dirty[i] = False
+                    elif o[0] == "s": dirty[i] = False
+                    elif o[0] in ("b", "e") and i not in gone: dirty[i] = True
+            dist["requests_to_absent_ids_on_adapter_servers"] += hit
+            dist["…_while_another_instance_holds_unpersisted_state"] += hit_dirty
     # exhaustive merges of short lists (server-level requests as a third owner; creation and adapter in some)
     short_sets = [
         (False, [[("b", None), ("s", ("c", 5)), ("s", None)], [("b", None), ("s", None), ("r",)]], []),
@@ -612,6 +687,21 @@ def _run(chk, srvs):
             (True, [[("b", ("c", 4)), ("s", ("p", 3)), ("t",), ("r",), ("s", None)], [("c",), ("b", None), ("s", None), ("t",), ("s", None)]], []),
             (True, [[("b", None), ("s", None), ("s", None)], [("b", ("p", 9)), ("s", None)]], [("R", ("c", 4)), ("q",), ("R", None)]),
         ]
+    # wave 3, all merges in both tiers: an instance ahead of the external store (step; end-session; begin-session with another
+    # setting; step) against requests to an id that is not in memory — a stopped instance, a timed-out one, an id that never existed
+    Bq = [("b", None), ("s", None), ("e",), ("b", ("c", 5)), ("s", None)]
+    directed = [([[("x",), ("k",)], Bq], []), ([[("s", None)], Bq], [("k",)]), ([[("b", None), ("s", None), ("t",), ("r",)], Bq[:4] + [("r",)]], [])]
+    if not chk.quick:
+        directed += [([[("b", ("p", 3)), ("s", None), ("x",), ("s", None)], [("b", None), ("s", ("p", 4)), ("b", ("p", 6)), ("s", None), ("r",)]], [("r",)]),
+                     ([[("b", None), ("s", ("c", 2)), ("e",), ("r",), ("s", None)], [("c",), ("b", None), ("t",), ("e",)]], [])]
+    for lists, ghost in directed:
+        ms = list(merges(lists + ([ghost] if ghost else [])))
+        if ghost:
+            ms = [[(GHOST if i == len(lists) else i, o) for i, o in m] for m in ms]
+        if chk.quick and len(ms) > 40:
+            ms = rng.shuffle(ms)[:40]
+        for seq in ms:
+            add_case("fresh" if (chk.quick or rng.chance(1, 2)) else "sharedBase", True, lists, [], seq, "exhaustive_merges")
     for ad, lists, own in short_sets:
         ms = list(merges(lists + ([own] if own else [])))
         if own:
@@ -629,9 +719,12 @@ def _run(chk, srvs):
         k = rng.range(2, 3)
         st = "fresh" if rng.chance(1, 2) else "sharedBase"
         ncreated = rng.below(2) if rng.chance(1, 2) else 0
-        lists = [gen_list(rng, long=not chk.quick, created=(j >= k - ncreated), points_heavy=(st == "sharedBase")) for j in range(k)]
+        ad = rng.chance(1, 2)
+        lists = [gen_list(rng, long=not chk.quick, created=(j >= k - ncreated), points_heavy=(st == "sharedBase"),
+                          unpersisted=(ad and rng.chance(1, 2)), absent=(ad and rng.chance(1, 2))) for j in range(k)]
         own = gen_own(rng) if rng.chance(1, 3) else []
-        add_case(st, rng.chance(1, 3), lists, own, random_merge(rng, lists, own), "sampled_merges")
+        ghost = gen_ghost(rng) if rng.chance(1, 4) else []
+        add_case(st, ad, lists, own, random_merge(rng, lists, own, ghost), "sampled_merges")
     chk.cov["rule"] = ("per-owner request lists over {start-instance (creation during the history), begin-session (no setting | constant | points), "
                        "run-step (no setting | constant | points), session-results, end-session, keep-alive, stop, timeout (+ lazy restoration from the FileAdapter "
                        "by the next request), /run (no setting | constant | points), /equations, /agents}; k = 2..3 instances + the server-level object; servers with and "
@@ -643,16 +736,18 @@ def _run(chk, srvs):
     for cs in cases:
         st, ad, lists, own, seq = cs["style"], cs["ad"], cs["lists"], cs["own"], cs["seq"]
         toks, diffs = check_case(srvs, solo, st, ad, lists, own, seq)
-        req += [f"cfg {'1' if facts[st] else '0'}", f"run {n_initial(lists)} {1 if ad else 0} " + (",".join(op_code(i, op) for i, op in seq) or "-")]
+        req += [f"cfg {'1' if facts[st] else '0'} {'1' if facts['restore'] else '0'}",
+                f"run {n_initial(lists)} {1 if ad else 0} " + (",".join(op_code(i, op) for i, op in seq) or "-")]
         real += ["ok", ",".join(toks)]
         for _, op in seq:
             kinds[op[0]] = kinds.get(op[0], 0) + 1
-        nsett = sum(1 for l in lists + [own] if any(len(o) > 1 and o[1] is not None for o in l))
+        nsett = sum(1 for l in lists + [own] if any(len(o) > 1 and o[1] is not None for o in l)) + any(i == GHOST for i, _ in seq)
         chk.case((st, ad, tuple(op_str(i, op) for i, op in seq)),
                  nontrivial=nsett >= 2 or any(o[0] in ("x", "t", "c") for l in lists for o in l),
                  sample={"style": st, "adapter": ad, "seq": [op_str(i, op) for i, op in seq]} if len(seq) > 8 else None)
-        if diffs and st not in first:
-            first[st] = (ad, lists, own, seq)
+        key = RESTORE_KEY if (ad and not facts["restore"]) else FINDING_KEY[st]
+        if diffs and key not in first:
+            first[key] = (st, ad, lists, own, seq)
     # concurrent handlers for different instances
     conc = {"cases": 0, "overlapped": 0, "by_schedule": {}}
     conc_first = {}
@@ -663,25 +758,27 @@ def _run(chk, srvs):
         seq, toks, diffs, overlapped = check_conc_case(srvs, solo, st, ad, lists, pa, pb, schedule, rng)
         conc["cases"] += 1; conc["overlapped"] += bool(overlapped)
         conc["by_schedule"][schedule] = conc["by_schedule"].get(schedule, 0) + 1
-        req += [f"cfg {'1' if facts[st] else '0'}", f"run 2 {1 if ad else 0} " + ",".join(op_code(i, op) for i, op in seq)]
+        req += [f"cfg {'1' if facts[st] else '0'} {'1' if facts['restore'] else '0'}", f"run 2 {1 if ad else 0} " + ",".join(op_code(i, op) for i, op in seq)]
         real += ["ok", ",".join(toks)]
         chk.case((st, ad, schedule, pa, pb, tuple(op_str(i, op) for i, op in seq)), nontrivial=True)
-        if diffs and st not in conc_first and st not in first:
+        if diffs and st not in conc_first and FINDING_KEY[st] not in first and not (ad and not facts["restore"]):
             conc_first[st] = (ad, lists, pa, pb, schedule, seq, diffs)
     dist["request_kinds"] = kinds
     dist["concurrent_handler_cases"] = conc
     chk.cov["input_distribution"] = dist
     chk.cov["traces_validated_against_impl"] = len(cases) + conc["cases"]
     for st in STYLES:
-        if not facts[st] and st not in first:
-            first[st] = (False, pdetail[st][0], pdetail[st][1], pdetail[st][2])
-    for st, (ad, lists, own, seq) in first.items():
+        if not facts[st] and FINDING_KEY[st] not in first:
+            first[FINDING_KEY[st]] = (st, False, pdetail[st][0], pdetail[st][1], pdetail[st][2])
+    if not facts["restore"] and RESTORE_KEY not in first:
+        first[RESTORE_KEY] = ("fresh", True, rdetail[0], [], rdetail[1])
+    for key, (st, ad, lists, own, seq) in first.items():
         lists, own, seq = shrink(srvs, solo, st, ad, lists, own, seq)
         toks, diffs = check_case(srvs, solo, st, ad, lists, own, seq)
         pos, i, got, exp = diffs[0]
-        chk.add_finding(FINDING_KEY[st],
+        chk.add_finding(key,
                         f"{st} factory{' with state adapter' if ad else ''}, requests {[op_str(a, o) for a, o in seq]}: response {pos} "
-                        f"(owner {'server-level' if i == OWN else i}) is {str(got[1])[:160]} but alone the owner is answered {str(exp[1])[:160]}",
+                        f"(owner {'server-level' if i == OWN else 'unknown id' if i == GHOST else i}) is {str(got[1])[:160]} but alone the owner is answered {str(exp[1])[:160]}",
                         {"style": st, "ad": ad, "seq": [[a, list(o)] for a, o in seq], "n": len(lists), "position": pos,
                          "got": got, "solo": exp})
     for st, (ad, lists, pa, pb, schedule, seq, diffs) in conc_first.items():
